@@ -165,7 +165,9 @@ Inductive ckind :=
 | CBusy       (* for {} cancelled after some operations *)
 | CBlocked    (* two goroutines blocked on a channel *)
 | CExpNot     (* context already expired; the evaluation did not execute anything *)
-| CExpRan.    (* context already expired; the evaluation ran all the same (stop() came first) *)
+| CExpRan     (* context already expired; the evaluation ran all the same (stop() came first) *)
+| CInDef.     (* the cancelled evaluation calls the earlier definition with the blocking construct and
+                 is cancelled while blocked in it (the partner is held back by the host) *)
 Inductive hev :=
 | HDefine     (* clo = func ... : the variable receives a new function literal *)
 | HUse (k : dkind) (v : via)
@@ -210,6 +212,7 @@ Definition y_cancel (st : state) (c : ckind) : state :=
                             ++ alone t 4 ++ alone (S t) 4)
   | CExpNot => run F10 st ([ABegin; AExecute [PRoot 12]; AStop] ++ alone t 4)
   | CExpRan => run F10 st ([ABegin; AStop; AExecute [PRoot 12]] ++ alone t 6)
+  | CInDef => run F10 st ([ABegin; AExecute [PRoot 14]] ++ alone t 10 ++ [AStop] ++ alone t 6)
   end.
 
 Fixpoint y_hist (st : state) (h : list hev) : list bool :=
